@@ -35,3 +35,8 @@ Definition ip4_store_checksum (p : bytes) : bytes :=
 (* ICMP.SetChecksum(cs): p[3] = uint8(cs >> 8); p[2] = uint8(cs) *)
 Definition icmp_set_checksum (p : bytes) (cs : N) : bytes :=
   set_nth 2 (u8 cs) (set_nth 3 (u8 (N.shiftr cs 8)) p).
+
+(* icmp6SendPacket pseudo header: psh[0:16]=src, psh[16:32]=dst,
+   PutUint32(psh[32:36], uint32(len(b))), psh[36..38]=0, psh[39]=58 *)
+Definition icmp6_pseudo (src dst : bytes) (n : N) : bytes :=
+  src ++ dst ++ [u8 (N.shiftr n 24); u8 (N.shiftr n 16); u8 (N.shiftr n 8); u8 n] ++ [0; 0; 0; 58].
